@@ -98,6 +98,19 @@ class Seam:
     def event(self, kind, payload):
         self.chan.send(("event", kind, payload))
 
+    def rebind(self, chan, proc_id, incarnation):
+        """Called in a process forked from a simulated process (fork-after-use, e.g. multiprocessing workers): the
+        memory image is the parent's, but the process is a new incarnation - new pid, and the kernel's random
+        source is not part of the copied state (the state of the `random` module is, as on a real machine)."""
+        self.chan = chan
+        self.proc_id = proc_id
+        self.inc = incarnation
+        self.ngates = 0
+        self.rnd = random.Random(int(self.seed_hex[:16], 16) ^ (self.inc * 7919))
+
+    def real_pid(self):
+        return _real["getpid"]()
+
     # ---- installation ---------------------------------------------------------------------
     def install(self):
         s = self
@@ -178,8 +191,8 @@ class Seam:
 
         os.write = os_write
         os.getpid = lambda: 1000 + s.inc
-        rnd = random.Random(int(s.seed_hex[:16], 16) ^ (s.inc * 7919))
-        os.urandom = lambda n: bytes(rnd.getrandbits(8) for _ in range(n))
+        s.rnd = random.Random(int(s.seed_hex[:16], 16) ^ (s.inc * 7919))
+        os.urandom = lambda n: bytes(s.rnd.getrandbits(8) for _ in range(n))
         random.seed(int(s.seed_hex[16:32], 16) ^ (s.inc * 104729))
 
         class Names:
